@@ -549,8 +549,8 @@ func checkCacheEntryAtomic(p *core.Prog, r *core.Result, rule string) {
 				switch key {
 				case "os.Stat", "os.Lstat":
 					ok = true
-				case "os.MkdirAll":
-					// only the parent directory
+				case "os.MkdirAll", "os.MkdirTemp":
+					// only the parent directory (created, or used to stage the download next to its destination)
 					ok = core.DependsOn(a, core.SliceOpts{Stores: true}, func(x ssa.Value) bool {
 						cx, isC := x.(*ssa.Call)
 						return isC && core.IsCallTo(cx, "path/filepath", "Dir")
@@ -574,6 +574,43 @@ func checkCacheEntryAtomic(p *core.Prog, r *core.Result, rule string) {
 	}
 	r.Floor(rule, n, 3, "uses of paths below the download cache")
 	r.Floor(rule, nRename, 1, "renames into the download cache")
+	// the source of every rename into the cache is staged on the cache's own file system: a temporary directory created
+	// below the cache (os.MkdirTemp with a directory that derives from Resolver.cacheDir), never in os.TempDir()
+	nStage := 0
+	for _, fn := range p.ModuleFuncs() {
+		top := fn
+		for top.Parent() != nil {
+			top = top.Parent()
+		}
+		if top.Pkg == nil || top.Pkg.Pkg.Path() != pkgMvs {
+			continue
+		}
+		for _, c := range core.Calls(fn) {
+			if !core.IsCallTo(c, "os", "Rename") || !fromCache(c.Common().Args[1]) {
+				continue
+			}
+			nStage++
+			var staging []*ssa.Call
+			core.DependsOn(c.Common().Args[0], core.SliceOpts{Stores: true, ThroughCall: func(cc *ssa.Call) bool {
+				h := core.Callee(cc)
+				return h != nil && (core.CalleeKey(h) == "path/filepath.Join" || core.CalleeKey(h) == "path/filepath.FromSlash")
+			}}, func(x ssa.Value) bool {
+				if e, ok := x.(*ssa.Extract); ok {
+					if cc, ok := e.Tuple.(*ssa.Call); ok && core.IsCallTo(cc, "os", "MkdirTemp") {
+						staging = append(staging, cc)
+					}
+				}
+				return false
+			})
+			okStage := len(staging) > 0
+			for _, mk := range staging {
+				if !fromCache(mk.Call.Args[0]) {
+					okStage = false
+				}
+			}
+			r.Check(okStage, rule, fmt.Sprintf("%s#staged-on-the-cache-file-system-%d", fname(fn), nStage), p.InstrPos(c.(ssa.Instruction)), "the tree renamed into the cache was staged in a temporary directory below the cache", "the tree renamed into the cache is staged outside the cache (os.MkdirTemp(\"\", …) uses os.TempDir()): os.Rename does not cross file systems, so with TMPDIR on a tmpfs every cold-cache resolution fails with 'invalid cross-device link' while a warm cache answers - the result depends on the state of the download cache")
+		}
+	}
 }
 
 // checkConfigFallback implements R10.10.
@@ -1107,7 +1144,7 @@ func runC10(p *core.Prog, r *core.Result) {
 		"R10.8 the versions a repository lists carry each tag's own version string, verbatim: between the tag name and Version.Version there is nothing but taking the last path element (no canonicalisation or other many-to-one rewriting) - tag names are unique, so at most one listed entry per tag object equals a requested path@version and the revision a requirement resolves to does not depend on the order of the remote's ref listing",
 		"R10.9 the clone behind a repository object is used by one goroutine at a time: every operation on the go-git repository held by a vcs repository type, on its work tree (Checkout) and every copy of its work-tree directory happens while a mutex of that object is held (the constructor excepted: the object is not shared yet) - the resolver shares one repository object between all fetches of a project and the MVS library loads requirements in parallel, so without the lock 'check out A, check out B, copy, copy' stores B's tree in the download cache under A's name",
 		"R10.10 which configuration file a project (the root or a requirement) is read from does not depend on the download cache: where a fallback from dawn.toml to .dawnconfig is decided by a 'does not exist' test on an error, that error comes from accessing that one file only (an os call, or a module function whose static closure contains a single file access) - not from a whole load that also computes the build list, whose wrapped not-exist errors (a cache entry without a configuration file) would read as 'dawn.toml is missing' and silently configure the project from a left-over .dawnconfig",
-		"R10.11 an entry of the download cache appears all at once: a path below Resolver.cacheDir is handed only to os.Stat (is it cached?), to os.MkdirAll through filepath.Dir (the parent), and to os.Rename as the destination of a staged download - never to the fetch itself or to any other call that fills it piecemeal; the cache-hit test is the existence of the directory, so a half-written entry (an interrupted download, a second process looking on) would count as complete and be resolved from whatever configuration file happens to be there already",
+		"R10.11 an entry of the download cache appears all at once: a path below Resolver.cacheDir is handed only to os.Stat (is it cached?), to os.MkdirAll through filepath.Dir (the parent), and to os.Rename as the destination of a staged download - never to the fetch itself or to any other call that fills it piecemeal, and the staged tree lives in a temporary directory below the cache (same file system, so the rename cannot fail with a cross-device error that only a cold cache meets); the cache-hit test is the existence of the directory, so a half-written entry (an interrupted download, a second process looking on) would count as complete and be resolved from whatever configuration file happens to be there already",
 		"R10.5 a fetched project's summary lists every requirement of its configuration, one to one, in sorted name order",
 	}
 	r.NotDecided = []string{"that the result is the minimal-version-selection solution for all graphs (the algorithm lives in github.com/pgavlin/mvs, outside the repository; behavioural)", "network/VCS behaviour behind the resolver"}
